@@ -373,6 +373,14 @@ def model_check(c, cfg, workers=6, timeout=1500, expect_violation=None):
     return res
 
 
+def run_growth_liveness_expiry(c, tier):
+    """Spec growth beyond the listed properties (DESIGN.md 3.7): progress of block import under fairness (FairSpec in
+    ChainCore.tla) and orphan-pool expiry (ChainCoreX.tla) bound to a real node (checks/g_chaincore.py, harness g_expiry).
+    Numbers land in coverage["growth_liveness_expiry"]."""
+    import g_chaincore
+    return g_chaincore.run(c, tier)
+
+
 def run(tier):
     c = V.Check(PID, "model_checking", tier)
     quick = tier == "quick"
@@ -473,6 +481,7 @@ def run(tier):
         c.add("traces_validated_against_impl", nd)
         c.set("directed_heavy_vs_light", dict({nm: min(per, len(cls.get(nm, []))) for nm in names + ["no-attempt"]},
                                                exported=len(dg), replayed=nd))
+    run_growth_liveness_expiry(c, tier)
     c.set("exhaustive", True)
     return c.finish()
 
@@ -481,6 +490,10 @@ def replay(path, tier):
     c = V.Check(PID, "model_checking", tier)
     r = json.load(open(path))
     p = r["payload"]
+    if p["kind"] == "growth_chaincore":
+        import g_chaincore
+        g_chaincore.replay(c, p)
+        return 1 if c.violations else 0
     if p["kind"] == "scenario":
         k = json.dumps(p["scenario"])
         run_replay(c, {k: p["allowed"]}, [k], 1, "replay")
